@@ -158,6 +158,13 @@ func (c Config) Draw(t *rapid.T) Inst {
 		return Inst{{K: k, P: pp, MT: rapid.SampledFrom(Mtimes).Draw(t, "mt")}, {K: "Mtime", P: pp}}
 	case "Getwd":
 		return Inst{{K: k}}
+	case "Glob":
+		pat := rapid.SampledFrom([]string{"*", "a*", "?", "*/*", "[ab]", "a/*", "b"}).Draw(t, "pat")
+		dir := rapid.SampledFrom(abs).Draw(t, "gdir")
+		if dir == "/" {
+			dir = ""
+		}
+		return Inst{{K: k, P: dir + "/" + pat}}
 	case "WalkDir":
 		return Inst{{K: k, P: path("p"), Act: rapid.IntRange(0, 3).Draw(t, "act"), At: rapid.IntRange(0, 6).Draw(t, "at")}}
 	default: // one-path calls
